@@ -148,8 +148,8 @@ def coordinate_dtype_cases(chk):
 def run(tier, seed):
     chk = Check("C14", tier, seed, "other")
     try:
-        from ..kernels import c14_update, c14_dataflow, c01_numpy_wrappers2, c01_shapes2
-        for k in c14_update.KERNELS + c14_dataflow.KERNELS_C14 + [q for q in c01_numpy_wrappers2.KERNELS + c01_shapes2.KERNELS if q.prop == "C14"]:
+        from ..kernels import c14_update, c14_dataflow, c01_numpy_wrappers2, c01_shapes2, c04_call_nodes
+        for k in c14_update.KERNELS + c14_dataflow.KERNELS_C14 + [q for q in c01_numpy_wrappers2.KERNELS + c01_shapes2.KERNELS + c04_call_nodes.KERNELS if q.prop == "C14"]:
             chk.add_kernel(run_kernel(k, tier))
     except ImportError:
         pass
